@@ -25,7 +25,7 @@ for m in re.finditer(r'^Loop (\S+):\n\s+file .*? function (.*)\$', sl, re.M):
 print(','.join(out))")
   US="--unwindset $IDS"
 fi
-timeout $SECS cbmc $US --no-malloc-may-fail --no-undefined-shift-check --no-signed-overflow-check --nan-check --no-self-loops-to-assumptions --no-pointer-primitive-check --object-bits 16 --unwind $UNW --sat-solver cadical --slice-formula $T --verbosity 9 > $D/prof.log 2>&1
+timeout $SECS cbmc $US --no-malloc-may-fail --no-undefined-shift-check --no-signed-overflow-check --nan-check --no-self-loops-to-assumptions --no-pointer-primitive-check --object-bits 16 --max-field-sensitivity-array-size 1024 --unwind $UNW --sat-solver cadical --slice-formula $T --verbosity 9 > $D/prof.log 2>&1
 echo "== loops unwound most"
 grep "^Unwinding loop" $D/prof.log | sed 's/ iteration.*function / /; s/ thread 0//' | sort | uniq -c | sort -rn | head -${6:-15} | cut -c1-400
 echo "== aborting path by function"
